@@ -406,7 +406,7 @@ func ruleR183(c *Ctx) {
 	var problems []string
 	n := 0
 	for _, cx := range contexts {
-		for _, r := range []rune{'<', '>', '&', '\'', '"', '\t', '\n', '\r', 'a', ' ', '=', ']', 0xe4, 0x2028, 0x1f600} {
+		for _, r := range []rune{'<', '>', '&', '\'', '"', '\t', '\n', '\r', 'a', ' ', '=', ']', 0xe4, 0x2028, 0xd7ff, 0xe000, 0xfffd, 0x10000, 0x1f600, 0x10ffff} {
 			sinks, ok := c.escaperSinksCtx(xa.wp, fd, r, cx.bools)
 			if !ok {
 				c.Undecided(key, fd.Pos(), "loop over the runes not found")
